@@ -57,122 +57,132 @@ def check(R):
     F = R.facts
     feats = F.hdr.get('features') or ''
     # ---- a --------------------------------------------------------------------
-    keys = {k: v['v'] for k, v in F.consts.items() if k.startswith('persist::') and k.endswith('_KEY') and v['v'] is not None}
-    R.floor('persist::*_KEY constants', len(keys), 12)
-    vals = sorted(keys.values())
-    R.expect('P6', 'persist', 'all singleton keys are pairwise distinct', len(set(vals)) == len(vals), f'{len(vals)} distinct values', f'duplicate key values: {sorted(keys.items(), key=lambda x: x[1])}')
-    fs = F.const_val('persist::FABRIC_KEYS_START')
-    subs = F.const_val('persist::PERSISTENT_SUBSCRIPTIONS_START')
-    sube = F.const_val('persist::PERSISTENT_SUBSCRIPTIONS_END')
-    vend = F.const_val('persist::VENDOR_KEYS_START')
-    R.expect('P6', 'persist', 'singleton keys lie above the fabric key range and below the subscription range', all(fs + 256 <= v < subs for v in vals), f'[{fs + 256}, {subs})', f'{min(vals)}..{max(vals)} vs fabrics {fs}+256, subscriptions {subs}')
-    R.expect('P6', 'persist', 'subscription key range ends where vendor keys start and is not empty', subs < sube <= vend, f'{subs}..{sube} <= {vend}', f'{subs}..{sube} vs {vend}')
-    for fn, callee, role in (('fabric::FabricPersist::store', 'persist::Persist::store_tlv', 'store'), ('fabric::FabricPersist::remove', 'persist::Persist::remove', 'remove'),
-                             ('fabric::Fabrics::add_load', KV + 'load', 'load'), ('fabric::Fabrics::reset_persist', KV + 'remove', 'remove')):
-        b = R.body(fn)
-        ts = b.calls(callee)
-        R.floor(f'{callee} in {fn}', len(ts), 1)
-        s = prims.sources(b, ts[0].d['a'][1])
-        adds = [1 for i, j, st in b.stmts() if st[1].get('op') == 'bin' and st[1].get('b') in ('Add', 'AddWithOverflow')]
-        R.expect('P10', fn, f'fabric {role} key is FABRIC_KEYS_START + index', any(x[0] == 'constp' and x[1] == 'persist::FABRIC_KEYS_START' for x in s) and bool(adds), 'FABRIC_KEYS_START + idx', f'{sorted(map(str, s))[:5]}')
-    for fn in ('fabric::Fabrics::load_persist', 'fabric::Fabrics::reset_persist'):
-        b = R.body(fn)
-        rng = [t for t in b.calls() if t.d.get('f', '').endswith('RangeInclusive::new')]
-        R.floor(f'index range in {fn}', len(rng), 1)
-        lo, hi = rng[0].d['a'][0].get('k', {}).get('v'), rng[0].d['a'][1].get('k', {}).get('v')
-        R.expect('P6', fn, 'the loop covers every fabric index a store can use (1..=255)', lo == 1 and hi == 255, '1..=255', f'{lo}..={hi}: fabrics stored under an index outside this range are not reloaded / not erased', b.where(rng[0].bb))
+    with R.clause('a'):
+        pass
+        keys = {k: v['v'] for k, v in F.consts.items() if k.startswith('persist::') and k.endswith('_KEY') and v['v'] is not None}
+        R.floor('persist::*_KEY constants', len(keys), 12)
+        vals = sorted(keys.values())
+        R.expect('P6', 'persist', 'all singleton keys are pairwise distinct', len(set(vals)) == len(vals), f'{len(vals)} distinct values', f'duplicate key values: {sorted(keys.items(), key=lambda x: x[1])}')
+        fs = F.const_val('persist::FABRIC_KEYS_START')
+        subs = F.const_val('persist::PERSISTENT_SUBSCRIPTIONS_START')
+        sube = F.const_val('persist::PERSISTENT_SUBSCRIPTIONS_END')
+        vend = F.const_val('persist::VENDOR_KEYS_START')
+        R.expect('P6', 'persist', 'singleton keys lie above the fabric key range and below the subscription range', all(fs + 256 <= v < subs for v in vals), f'[{fs + 256}, {subs})', f'{min(vals)}..{max(vals)} vs fabrics {fs}+256, subscriptions {subs}')
+        R.expect('P6', 'persist', 'subscription key range ends where vendor keys start and is not empty', subs < sube <= vend, f'{subs}..{sube} <= {vend}', f'{subs}..{sube} vs {vend}')
+        for fn, callee, role in (('fabric::FabricPersist::store', 'persist::Persist::store_tlv', 'store'), ('fabric::FabricPersist::remove', 'persist::Persist::remove', 'remove'),
+                                 ('fabric::Fabrics::add_load', KV + 'load', 'load'), ('fabric::Fabrics::reset_persist', KV + 'remove', 'remove')):
+            b = R.body(fn)
+            ts = b.calls(callee)
+            R.floor(f'{callee} in {fn}', len(ts), 1)
+            s = prims.sources(b, ts[0].d['a'][1])
+            adds = [1 for i, j, st in b.stmts() if st[1].get('op') == 'bin' and st[1].get('b') in ('Add', 'AddWithOverflow')]
+            R.expect('P10', fn, f'fabric {role} key is FABRIC_KEYS_START + index', any(x[0] == 'constp' and x[1] == 'persist::FABRIC_KEYS_START' for x in s) and bool(adds), 'FABRIC_KEYS_START + idx', f'{sorted(map(str, s))[:5]}')
+        for fn in ('fabric::Fabrics::load_persist', 'fabric::Fabrics::reset_persist'):
+            b = R.body(fn)
+            rng = [t for t in b.calls() if t.d.get('f', '').endswith('RangeInclusive::new')]
+            R.floor(f'index range in {fn}', len(rng), 1)
+            lo, hi = rng[0].d['a'][0].get('k', {}).get('v'), rng[0].d['a'][1].get('k', {}).get('v')
+            R.expect('P6', fn, 'the loop covers every fabric index a store can use (1..=255)', lo == 1 and hi == 255, '1..=255', f'{lo}..={hi}: fabrics stored under an index outside this range are not reloaded / not erased', b.where(rng[0].bb))
 
     # ---- b --------------------------------------------------------------------
-    st, ld, rm = _key_sites(F, STORE_FNS), _key_sites(F, LOAD_FNS), _key_sites(F, REMOVE_FNS)
-    stored = sorted(k for k in st if k not in ('?', 'persist::FABRIC_KEYS_START'))
-    R.floor('singleton keys with a store site', len(stored), 9)
-    for k in stored:
-        w = st[k][0]
-        R.expect('P5', k, f'{k.split("::")[-1]} has a load site (what is stored is read back at start-up)', k in ld, f'loaded in {sorted({F.owner_fn(b.fn) for b, t in ld.get(k, [])})[:3]}',
-                 f'{k} is stored in {F.owner_fn(w[0].fn)} but never loaded', w[0].where(w[1].bb))
-        if k in APP_DRIVEN:
-            R.note(f'{k}: remove site not required - {APP_DRIVEN[k]}')
-            continue
-        R.expect('P5', k, f'{k.split("::")[-1]} has a remove site (a factory reset leaves nothing behind)', k in rm, f'removed in {sorted({F.owner_fn(b.fn) for b, t in rm.get(k, [])})[:3]}',
-                 f'{k} is stored in {F.owner_fn(w[0].fn)} but no code path removes it', w[0].where(w[1].bb))
-    for k in sorted(ld):
-        if k in ('?', 'persist::FABRIC_KEYS_START'):
-            continue
-        R.expect('P5', k, f'{k.split("::")[-1]}: a key that is loaded is also stored somewhere', k in st, 'ok', f'{k} is loaded but never stored')
+    with R.clause('b'):
+        pass
+        st, ld, rm = _key_sites(F, STORE_FNS), _key_sites(F, LOAD_FNS), _key_sites(F, REMOVE_FNS)
+        stored = sorted(k for k in st if k not in ('?', 'persist::FABRIC_KEYS_START'))
+        R.floor('singleton keys with a store site', len(stored), 9)
+        for k in stored:
+            w = st[k][0]
+            R.expect('P5', k, f'{k.split("::")[-1]} has a load site (what is stored is read back at start-up)', k in ld, f'loaded in {sorted({F.owner_fn(b.fn) for b, t in ld.get(k, [])})[:3]}',
+                     f'{k} is stored in {F.owner_fn(w[0].fn)} but never loaded', w[0].where(w[1].bb))
+            if k in APP_DRIVEN:
+                R.note(f'{k}: remove site not required - {APP_DRIVEN[k]}')
+                continue
+            R.expect('P5', k, f'{k.split("::")[-1]} has a remove site (a factory reset leaves nothing behind)', k in rm, f'removed in {sorted({F.owner_fn(b.fn) for b, t in rm.get(k, [])})[:3]}',
+                     f'{k} is stored in {F.owner_fn(w[0].fn)} but no code path removes it', w[0].where(w[1].bb))
+        for k in sorted(ld):
+            if k in ('?', 'persist::FABRIC_KEYS_START'):
+                continue
+            R.expect('P5', k, f'{k.split("::")[-1]}: a key that is loaded is also stored somewhere', k in st, 'ok', f'{k} is loaded but never stored')
 
     # ---- c --------------------------------------------------------------------
-    def comps(owner, suffix):
-        out = set()
-        for b in bodies_of(F, owner):
-            for c in b.calls_summary:
-                if c.endswith('::' + suffix):
-                    out.add(c[:-len(suffix) - 2])
-        return out
-    a, b_ = comps('Matter::startup', 'load_persist'), comps('Matter::factory_reset', 'reset_persist')
-    R.floor('components loaded by Matter::startup', len(a), 3)
-    R.expect('P5', 'Matter::startup', 'startup and factory_reset handle the same state components', a == b_, f'{sorted(x.split("::")[-1] for x in a)}',
-             f'loaded only: {sorted(a - b_)}; reset only: {sorted(b_ - a)}')
+    with R.clause('c'):
+        pass
+        def comps(owner, suffix):
+            out = set()
+            for b in bodies_of(F, owner):
+                for c in b.calls_summary:
+                    if c.endswith('::' + suffix):
+                        out.add(c[:-len(suffix) - 2])
+            return out
+        a, b_ = comps('Matter::startup', 'load_persist'), comps('Matter::factory_reset', 'reset_persist')
+        R.floor('components loaded by Matter::startup', len(a), 3)
+        R.expect('P5', 'Matter::startup', 'startup and factory_reset handle the same state components', a == b_, f'{sorted(x.split("::")[-1] for x in a)}',
+                 f'loaded only: {sorted(a - b_)}; reset only: {sorted(b_ - a)}')
 
-    def reach_comps(root, suffix):
-        out = set()
-        for fn in prims.reachable_fns(F, [root], depth=5):
-            if fn.endswith('::' + suffix) and not fn.startswith('im::InteractionModelState'):
-                out.add(fn[:-len(suffix) - 2])
-        return out
-    a, b_ = reach_comps('im::InteractionModel::startup', 'load_persist'), reach_comps('im::InteractionModel::factory_reset', 'reset_persist')
-    R.floor('components loaded by InteractionModel::startup', len(a), 1)
-    R.expect('P5', 'im::InteractionModel::startup', 'InteractionModel startup and factory_reset handle the same state components', a <= b_ and len(b_ - a) <= 0 or a == b_,
-             f'{sorted(x.split("::")[-1] for x in a)}', f'loaded only: {sorted(a - b_)}; reset only: {sorted(b_ - a)}')
-    for owner in ('Matter::startup', 'Matter::factory_reset'):
-        for b in bodies_of(F, owner):
-            for c in sorted(b.calls_summary):
-                if c.endswith('::load_persist') or c.endswith('::reset_persist'):
-                    result_used(R, 'P8', b, (c,))
+        def reach_comps(root, suffix):
+            out = set()
+            for fn in prims.reachable_fns(F, [root], depth=5):
+                if fn.endswith('::' + suffix) and not fn.startswith('im::InteractionModelState'):
+                    out.add(fn[:-len(suffix) - 2])
+            return out
+        a, b_ = reach_comps('im::InteractionModel::startup', 'load_persist'), reach_comps('im::InteractionModel::factory_reset', 'reset_persist')
+        R.floor('components loaded by InteractionModel::startup', len(a), 1)
+        R.expect('P5', 'im::InteractionModel::startup', 'InteractionModel startup and factory_reset handle the same state components', a <= b_ and len(b_ - a) <= 0 or a == b_,
+                 f'{sorted(x.split("::")[-1] for x in a)}', f'loaded only: {sorted(a - b_)}; reset only: {sorted(b_ - a)}')
+        for owner in ('Matter::startup', 'Matter::factory_reset'):
+            for b in bodies_of(F, owner):
+                for c in sorted(b.calls_summary):
+                    if c.endswith('::load_persist') or c.endswith('::reset_persist'):
+                        result_used(R, 'P8', b, (c,))
 
     # ---- d --------------------------------------------------------------------
-    crit = [KV + 'store', KV + 'remove', 'persist::Persist::store', 'persist::Persist::store_tlv', 'persist::Persist::remove', 'fabric::FabricPersist::store', 'fabric::FabricPersist::remove',
-            'fabric::FabricPersist::run', 'persist::Persist::run']
-    SOFT = {('sc::case::resumption::ResumableSessions::load_persist', KV + 'remove'): 'best-effort drop of an unparseable optional cache'}
-    n = 0
-    for b in F.bodies.values():
-        if not b.focus or b.fn.startswith(('<&mut', '<&')):
-            continue
-        for c in crit:
-            if c in b.calls_summary:
-                if (F.owner_fn(b.fn), c) in SOFT:
-                    R.note(f'{b.fn}: {c} result intentionally ignored - {SOFT[(F.owner_fn(b.fn), c)]}')
-                    continue
-                result_used(R, 'P8', b, (c,))
-                n += 1
-    R.floor('storage call sites checked', n, 40)
-    NOC = '<dm::clusters::noc::NocHandler as dm::clusters::decl::operational_credentials::ClusterHandler>'
-    rf = closure_in(R, NOC + '::handle_remove_fabric', ['Fabrics::remove'])
-    succ = R.call_guard(rf, 'fabric::Fabrics::remove')
-    bad = prims.always_followed_by(rf, [e[1] for e in succ], call_bbs(rf, 'fabric::FabricPersist::remove'))
-    R.expect('P3', rf.fn, 'RemoveFabric: once the fabric is dropped from memory every path erases its stored copy', not bad, 'fabrics.remove ok -> persist.remove on every path',
-             'a path drops the fabric from memory and returns without removing it from the key-value store: it comes back after a restart')
-    top = [b for b in bodies_of(F, NOC + '::handle_remove_fabric') if b.fn == NOC + '::handle_remove_fabric'][0]
-    ends = [t.bb for t in top.calls() if t.d.get('f', '').endswith('::end')]
-    runs = [t.bb for t in top.calls('fabric::FabricPersist::run')]
-    if runs and ends:
-        miss = prims.precedes(top, runs, ends)
-        R.expect('P3', top.fn, 'the store is flushed before the response is finished', not miss, 'persist.run() precedes end()', 'end() reachable without persist.run()')
+    with R.clause('d'):
+        pass
+        crit = [KV + 'store', KV + 'remove', 'persist::Persist::store', 'persist::Persist::store_tlv', 'persist::Persist::remove', 'fabric::FabricPersist::store', 'fabric::FabricPersist::remove',
+                'fabric::FabricPersist::run', 'persist::Persist::run']
+        SOFT = {('sc::case::resumption::ResumableSessions::load_persist', KV + 'remove'): 'best-effort drop of an unparseable optional cache'}
+        n = 0
+        for b in F.bodies.values():
+            if not b.focus or b.fn.startswith(('<&mut', '<&')):
+                continue
+            for c in crit:
+                if c in b.calls_summary:
+                    if (F.owner_fn(b.fn), c) in SOFT:
+                        R.note(f'{b.fn}: {c} result intentionally ignored - {SOFT[(F.owner_fn(b.fn), c)]}')
+                        continue
+                    result_used(R, 'P8', b, (c,))
+                    n += 1
+        R.floor('storage call sites checked', n, 40)
+        NOC = '<dm::clusters::noc::NocHandler as dm::clusters::decl::operational_credentials::ClusterHandler>'
+        rf = closure_in(R, NOC + '::handle_remove_fabric', ['Fabrics::remove'])
+        succ = R.call_guard(rf, 'fabric::Fabrics::remove')
+        bad = prims.always_followed_by(rf, [e[1] for e in succ], call_bbs(rf, 'fabric::FabricPersist::remove'))
+        R.expect('P3', rf.fn, 'RemoveFabric: once the fabric is dropped from memory every path erases its stored copy', not bad, 'fabrics.remove ok -> persist.remove on every path',
+                 'a path drops the fabric from memory and returns without removing it from the key-value store: it comes back after a restart')
+        top = [b for b in bodies_of(F, NOC + '::handle_remove_fabric') if b.fn == NOC + '::handle_remove_fabric'][0]
+        ends = [t.bb for t in top.calls() if t.d.get('f', '').endswith('::end')]
+        runs = [t.bb for t in top.calls('fabric::FabricPersist::run')]
+        if runs and ends:
+            miss = prims.precedes(top, runs, ends)
+            R.expect('P3', top.fn, 'the store is flushed before the response is finished', not miss, 'persist.run() precedes end()', 'end() reachable without persist.run()')
 
     # ---- e --------------------------------------------------------------------
-    if 'case-resumption' in feats:
-        lp = R.body('sc::case::resumption::ResumableSessions::load_persist')
-        parse = [t for t in lp.calls() if t.d.get('f', '').endswith('FromTLV::from_tlv')]
-        R.floor('from_tlv in ResumableSessions::load_persist', len(parse), 1)
-        tr = prims.track_result(F, lp, parse[0])
-        bad = []
-        for (frm, to) in tr.failure:
-            r = prims.reach(lp, (to,))
-            errs = [i for i in r if any(st[1].get('op') == 'agg' and st[1].get('var') == 'Err' and st[0][0] == 0 for st in lp.bbs[i]['s'])] + \
-                   [i for i in r if lp.bbs[i]['t']['t'] == 'call' and lp.bbs[i]['t'].get('f') == 'core::ops::try_trait::FromResidual::from_residual']
-            if errs:
-                bad.append(lp.where(errs[0]))
-        R.expect('P8', lp.fn, 'a parse error of the optional cache never propagates (start-up continues)', bool(tr.failure) and not bad, 'parse-error arm returns Ok(())',
-                 f'the parse-error arm can return an error at {bad}')
-        ld_ = lp.calls(KV + 'load')
-        R.floor('load in ResumableSessions::load_persist', len(ld_), 1)
-        result_used(R, 'P8', lp, (KV + 'load',))
+    with R.clause('e'):
+        pass
+        if 'case-resumption' in feats:
+            lp = R.body('sc::case::resumption::ResumableSessions::load_persist')
+            parse = [t for t in lp.calls() if t.d.get('f', '').endswith('FromTLV::from_tlv')]
+            R.floor('from_tlv in ResumableSessions::load_persist', len(parse), 1)
+            tr = prims.track_result(F, lp, parse[0])
+            bad = []
+            for (frm, to) in tr.failure:
+                r = prims.reach(lp, (to,))
+                errs = [i for i in r if any(st[1].get('op') == 'agg' and st[1].get('var') == 'Err' and st[0][0] == 0 for st in lp.bbs[i]['s'])] + \
+                       [i for i in r if lp.bbs[i]['t']['t'] == 'call' and lp.bbs[i]['t'].get('f') == 'core::ops::try_trait::FromResidual::from_residual']
+                if errs:
+                    bad.append(lp.where(errs[0]))
+            R.expect('P8', lp.fn, 'a parse error of the optional cache never propagates (start-up continues)', bool(tr.failure) and not bad, 'parse-error arm returns Ok(())',
+                     f'the parse-error arm can return an error at {bad}')
+            ld_ = lp.calls(KV + 'load')
+            R.floor('load in ResumableSessions::load_persist', len(ld_), 1)
+            result_used(R, 'P8', lp, (KV + 'load',))
